@@ -118,6 +118,9 @@ pub struct Need {
 pub const OPS: &[&str] = &[
     "create_P",
     "create_Q",
+    "create_P_float_from_int_param",
+    "create_P_float_from_int_literal",
+    "create_P_typed_params",
     "create_P_nested_new_Q_inherit",
     "create_P_R2_nested_new_Q_R1",
     "update_own_P",
@@ -247,6 +250,25 @@ impl<'a> Ctx<'a> {
             "create_Q" => {
                 needs.push(need(Rm::R1, "ns.Q", Right::Own));
                 ("mutate { ns.Q { room_id:$r name:\"c\" } }".into(), params(&[pr("r", b64(&self.r1.id))]))
+            }
+            "create_P_float_from_int_param" => {
+                // a Float variable accepts an integer value and stores it as given
+                needs.push(need(Rm::R1, "ns.P", Right::Own));
+                let mut p = params(&[pr("r", b64(&self.r1.id))]);
+                p.add("v", 70i64).unwrap();
+                ("mutate { ns.P { room_id:$r name:\"c\" f:$v } }".into(), p)
+            }
+            "create_P_float_from_int_literal" => {
+                needs.push(need(Rm::R1, "ns.P", Right::Own));
+                ("mutate { ns.P { room_id:$r name:\"c\" f:70 n:-3 b:false } }".into(), params(&[pr("r", b64(&self.r1.id))]))
+            }
+            "create_P_typed_params" => {
+                needs.push(need(Rm::R1, "ns.P", Right::Own));
+                let mut p = params(&[pr("r", b64(&self.r1.id))]);
+                p.add("n", 9007199254740993i64).unwrap();
+                p.add("f", 2.5f64).unwrap();
+                p.add("b", true).unwrap();
+                ("mutate { ns.P { room_id:$r name:\"c\" n:$n f:$f b:$b } }".into(), p)
             }
             "create_P_nested_new_Q_inherit" => {
                 needs.push(need(Rm::R1, "ns.P", Right::Own));
